@@ -163,6 +163,16 @@ ZeroOf(p) ==
     [] p = "bool"   -> [t |-> "bool", v |-> "false"]
     [] p = "string" -> Str(<<>>)
     [] p = "bytes"  -> [t |-> "bytes", v |-> <<>>]
+\* ... and documents that supply a defaulted UNION field with another member than the default's, or a defaulted RECORD field
+\* as the empty record (when every field of that record may be absent): nothing of the field's default may be merged in
+AllMayBeAbsent(rn) == \A i \in Idx(FieldsOf(rn)) : FieldsOf(rn)[i].opt \/ FieldsOf(rn)[i].def # NoDefault
+AltsOf(f) ==
+  IF f.def.t = "union" THEN {x \in Vals(f.ty) : x.t = "union" /\ x.a # f.def.a}
+  ELSE IF f.def.t = "rec" /\ f.ty.k = "ref" /\ SchemaOf[f.ty.n].k = "record" /\ AllMayBeAbsent(f.ty.n) THEN {[t |-> "rec", v |-> <<>>]}
+  ELSE {}
+AltSupplied(n) ==
+  UNION {{[t |-> "rec", v |-> [j \in DOMAIN RecBase(n).v |-> IF RecBase(n).v[j].k = FieldsOf(n)[i].n THEN [k |-> RecBase(n).v[j].k, v |-> alt] ELSE RecBase(n).v[j]]] :
+            alt \in AltsOf(FieldsOf(n)[i])} : i \in DefaultedIdx(n)}
 ZeroSupplied(n) ==
   {[t |-> "rec", v |-> [j \in DOMAIN RecBase(n).v |-> IF RecBase(n).v[j].k = FieldsOf(n)[i].n THEN [k |-> RecBase(n).v[j].k, v |-> ZeroOf(FieldsOf(n)[i].ty.p)] ELSE RecBase(n).v[j]]] :
       i \in {x \in DefaultedIdx(n) : FieldsOf(n)[x].ty.k = "prim"}}
